@@ -132,7 +132,7 @@ CLAIMS = {
         text="Bounded model checking of fragments of the textual writer/scanner: (1) the real MIR_output_item/_insn/_op terminates memory-safely and "
              "reads only the union members its item kind has, on one directly constructed item per kind (import, export, forward, proto with blk/rblk, "
              "func with each operand form incl. alias annotations, data of every element type, bss, ref, lref, expr) with symbolic payloads; "
-             "(2) string escapes: MIR_output_str into the real scanner's string reader for ALL byte strings of length <= 2 (quick) / 3 (thorough).",
+             "(2) string escapes: MIR_output_str into the real scanner's string reader for ALL byte strings of length <= 3 ending in NUL (both tiers) and all strings of length <= 2 (quick) / 3 (thorough).",
         note="NOT decided: integer and floating-point immediates (formatting/parsing is libc's: %.*e, strtod - no CBMC model), whole-module text "
              "identity and execution identity after re-scan, re-scanning of names/labels/memory-operand syntax.  fprintf is a harness stub (literal "
              "text, %s, %c, %03o exact; numeric conversions a placeholder); ASCII/C locale.  KNOWN FINDING (known-findings.txt): a string whose last "
